@@ -44,12 +44,74 @@ def make_ops(depth):
     return f
 
 
+DESCENT_SRC = ("import typing, datetime\n"
+               "SA = typing.TypeAliasType('SA', 'dict[str, SA] | list[SA] | datetime.date | None')\n"
+               "type L1 = list[L1] | int\n")
+
+
+def _descent_child(job):
+    """unmarshal(<recursive alias>, <short text>) must return or raise: run under a wall-clock limit by the parent."""
+    import sys
+    import types
+    import warnings
+    warnings.simplefilter("ignore")
+    import typelib
+    mod = types.ModuleType("vm_c03_descent")
+    sys.modules["vm_c03_descent"] = mod
+    exec(DESCENT_SRC, mod.__dict__)
+    name, x = job
+    try:
+        r = typelib.unmarshal(getattr(mod, name), x)
+        return {"ok": repr(r)[:80]}
+    except Exception as e:  # noqa: BLE001
+        return {"err": enc.err_class(e)}
+
+
+def text_descent_probe(res):
+    """A one-character text is a collection whose only element is that text again: a recursive alias with TWO recursive container
+    members descends into it along both (dict and list), 2^depth calls before the interpreter's recursion limit ends each branch."""
+    from .. import iso
+    core.import_typelib()
+    jobs = [("L1", "ab"), ("L1", "-"), ("SA", None), ("SA", "-"), ("SA", "a-b")]
+    outs = iso.map_isolated(_descent_child, jobs, timeout=8.0)
+    for (name, x), o in zip(jobs, outs):
+        res.case({"alias": name, "input": x}, True)
+        if isinstance(o, dict) and "crash" in o:
+            f = {"what": f"unmarshal({name}, {x!r}) neither returned nor raised within 8 s ({o['crash']})", "input": {"alias": name, "text": x}}
+            if name == "SA":
+                f["finding"] = "textDescentBlowup"
+            res.failures.append(f)
+        else:
+            res.count("oracle:recursive-alias-text-terminates")
+
+
+def member_text_job():
+    """The text of a declared member (Literal / enum value) in every carrier at every position: the result must be the declared
+    member (a str, an int, an enum member), never the carrier."""
+    prog = {"classes": [{"id": 0, "name": "Color", "qualname": "Color", "module": "vm_c03_m", "kind": "enum", "mixin": "none",
+                         "members": [["red", "red"], ["one", 1]], "fields": [], "required": [], "defaults": []},
+                        {"id": 1, "name": "Handle", "qualname": "Handle", "module": "vm_c03_m", "kind": "dataclass", "opts": [],
+                         "fields": [["path", ["str"]], ["mode", ["lit", ["r", "w"]]]], "required": ["path", "mode"], "defaults": [],
+                         "members": [], "mixin": "none"}], "aliases": {}}
+    lit = ["lit", ["red", "green", 1]]
+    ops = []
+    for text in ("red", "1", "green", "blue", "r"):
+        for car in ("bytes", "bytearray", "mview", "mviewW"):
+            b = ["b", car, text]
+            for ts, v in ((lit, b), (["coll", "list", lit, {"sp": "builtin"}], ["l", [b, "green"]]), (["dict", lit, ["int"], {"sp": "builtin"}], ["d", [[["b", "bytes", text], 1]]]),
+                          (["union", [["lit", [1, 2]], ["lit", ["red"]]], {"sp": "typing"}], b), (["tuple", [lit, ["int"]], {"sp": "builtin"}], ["t", [b, 1]]),
+                          (["enum", 0], b), (["cls", 1], ["d", [["path", "/x"], ["mode", b]]]), (["union", [lit, ["none"]], {"sp": "optional"}], b)):
+                ops.append({"op": "um", "ty": ts, "val": v, "obs": ["conforms"]})
+    return {"prog": prog, "ops": ops}
+
+
 def explore(ctx):
     res = Result()
     res.rule = RULE
     depth = 3 if ctx.tier == "quick" else 4
     n = ctx.n(150, 2500)
     jobs = core.gen_jobs(ctx, n, "c03", dict(max_depth=depth, unions="any"), make_ops(depth))
+    jobs.append(member_text_job())
     real, model = core.run_jobs(jobs)
     # second pass: corrupt the real wire forms of the valid values and unmarshal those
     from .. import universe
@@ -100,10 +162,20 @@ def explore(ctx):
                     res.count("oracle:conforms")
             else:
                 res.count("oracle:raised:" + r_["err"])
+    text_descent_probe(res)
     return res
 
 
 def witness(fid):
+    if fid == "textDescentBlowup":
+        from .. import iso
+        core.import_typelib()
+        o = iso.map_isolated(_descent_child, [("SA", "-")], timeout=8.0)[0]
+        return isinstance(o, dict) and "crash" in o
+    return _witness_rest(fid)
+
+
+def _witness_rest(fid):
     return None
 
 
